@@ -2434,7 +2434,10 @@ func (c *compiler) VisitWhileStmt(s *ast.WhileStmt) ast.VisitResult {
 		}
 
 		c.cbb, c.scp = condBlock, c.exitScope(c.scp) // the condition is not in scope
+		// the condition is evaluated on every iteration, so its temporaries have to be freed right away
+		c.scp = newScope(c.scp)
 		cond, _, _ := c.evaluate(s.Condition)
+		c.scp = c.exitScope(c.scp)
 		leaveBlock := c.cf.NewBlock("")
 		c.commentNode(c.cbb, s, "")
 		c.cbb.NewCondBr(cond, body, leaveBlock)
@@ -2514,7 +2517,10 @@ func (c *compiler) VisitForStmt(s *ast.ForStmt) ast.VisitResult {
 			incrementer, incrementerType = newInt(1), c.ddpinttyp
 		}
 	} else { // stepsize was present, so compile it
+		// free its temporaries right away, the scope of the loop is also left by every continue
+		c.scp = newScope(c.scp)
 		incrementer, incrementerType, _ = c.evaluate(s.StepSize)
+		c.scp = c.exitScope(c.scp)
 	}
 
 	condBlock := c.cf.NewBlock("")
@@ -2566,14 +2572,19 @@ func (c *compiler) VisitForStmt(s *ast.ForStmt) ast.VisitResult {
 
 	c.cbb = loopUp
 	// we are counting up, so compare less-or-equal
+	// the end value is evaluated on every iteration (in one of the two blocks), so its temporaries are freed right away
+	c.scp = newScope(c.scp)
 	to, toType, _ := c.evaluate(s.To)
+	c.scp = c.exitScope(c.scp)
 	cond = new_IorF_comp(enum.IPredSLE, enum.FPredOLE, c.cbb.NewLoad(indexTyp.IrType(), indexVar), indexTyp, to, toType)
 	c.commentNode(c.cbb, s, "")
 	c.cbb.NewCondBr(cond, forBody, leaveBlock)
 
 	c.cbb = loopDown
 	// we are counting down, so compare greater-or-equal
+	c.scp = newScope(c.scp)
 	to, toType, _ = c.evaluate(s.To)
+	c.scp = c.exitScope(c.scp)
 	cond = new_IorF_comp(enum.IPredSGE, enum.FPredOGE, c.cbb.NewLoad(indexTyp.IrType(), indexVar), indexTyp, to, toType)
 	c.commentNode(c.cbb, s, "")
 	c.cbb.NewCondBr(cond, forBody, leaveBlock)
